@@ -17,7 +17,7 @@ import traceback
 from typing import Any, Callable, Dict, List, Optional, Sequence, Set, Tuple
 
 from .env import ENV, REAL_TIME
-from .report import HarnessError
+from .report import HarnessError, progress
 
 READY, RUNNING, BLOCKED, PARKED, WAITEV, JOINING, DONE = "ready", "running", "blocked", "parked", "waitev", "joining", "done"
 
@@ -261,27 +261,31 @@ class Execution:
                 self.add_actor(name, fn)
             while True:
                 ready = [a for a in self.actors if self._enabled(a)]
+                extra = ex.world.extra_options(self) if ex.has_extra else []
+                tick_opt: List[Any] = []
                 if not ready:
-                    if all(a.state == DONE or a.frozen for a in self.actors):
-                        self.complete = all(a.state == DONE for a in self.actors)
-                        break
                     timed = [a.wake for a in self.actors if a.wake is not None and a.state in (PARKED, WAITEV, JOINING)
                              and not a.frozen]
+                    if not extra:
+                        if all(a.state == DONE for a in self.actors):
+                            self.complete = True
+                            break
+                        if timed:
+                            ENV.clock = max(ENV.clock, min(timed))
+                            continue
+                        self.deadlock = True
+                        break
                     if timed:
-                        ENV.clock = max(ENV.clock, min(timed))
-                        continue
-                    self.deadlock = True
-                    break
+                        tick_opt = [("tick", round(max(ENV.clock, min(timed)), 6))]
                 if self.n_sched >= ex.horizon:
                     self.capped = True
                     break
                 # canonical option order: the running actor first (if still enabled), then by index
                 opts: List[Any] = sorted(ready, key=lambda a: (a is not self.last, a.idx))
                 jump_opts: List[Any] = []
-                if self.jumps < ex.max_jumps:
+                if ready and self.jumps < ex.max_jumps:
                     jump_opts = [("jump", amt) for amt in ex.jump_amounts]
-                extra = ex.world.extra_options(self) if ex.has_extra else []
-                all_opts = opts + jump_opts + extra
+                all_opts = opts + tick_opt + jump_opts + extra
                 if len(all_opts) == 1:
                     chosen = all_opts[0]
                 else:
@@ -326,6 +330,9 @@ class Execution:
                         self.jumps += 1
                         self.clock_jumped += chosen[1]
                         self.trace.append(f"<clock +{chosen[1]}s>")
+                    elif chosen[0] == "tick":
+                        ENV.clock = max(ENV.clock, chosen[1])
+                        self.trace.append("<idle: clock advances to next timer>")
                     else:
                         ex.world.apply_extra(self, chosen)
                         self.trace.append(f"<{chosen[0]} {chosen[1]}>")
@@ -672,6 +679,9 @@ class Explorer:
                     raise HarnessError(f"nondeterministic replay of schedule {e.choices}:\n{e.trace}\nvs\n{e2.trace}")
             if n_round % 50 == 0:
                 gc.collect()
+            if n_round % 500 == 0:
+                progress(f"round {self.stats['rounds']} exec {self.stats['executions']} stack {len(stack)} "
+                         f"visited {len(self.visited)} depth {len(e.choices)}")
             fps_all = [p["fp"] for p in e.points]
             for i in range(len(e.points) - 1, len(prefix) - 1, -1):
                 p = e.points[i]
